@@ -44,17 +44,21 @@ def run(ids):
     lr = os.path.join(B, "last_run.json")
     if os.path.exists(lr):
         res = json.load(open(lr))
+    # a scratch worktree of /repo's HEAD: /repo's own working tree is never touched
+    WT = "/tmp/bn-run"
+    sh(f"git -C /repo worktree remove --force {WT}")
+    sh(f"git -C /repo worktree add -q --detach {WT} HEAD")
     for bid in ids or sorted(os.listdir(B)):
         d = os.path.join(B, bid)
         if not os.path.isdir(d):
             continue
-        rc, o = sh(f"git -C /repo apply {d}/patch.diff")
+        rc, o = sh(f"git -C {WT} apply {d}/patch.diff")
         if rc:
-            sh("git -C /repo reset -q --hard HEAD")
+            sh(f"git -C {WT} reset -q --hard HEAD")
             res[bid] = "PATCH-DOES-NOT-APPLY"; print(bid, res[bid]); continue
         try:
             hits = []
-            procs = {p: subprocess.Popen(f"{V}/check {p} --tier quick --no-evidence", shell=True, stdout=subprocess.PIPE, stderr=subprocess.STDOUT, text=True) for p in pids}
+            procs = {p: subprocess.Popen(f"{V}/check {p} --tier quick --no-evidence --repo {WT}", shell=True, stdout=subprocess.PIPE, stderr=subprocess.STDOUT, text=True) for p in pids}
             for p, pr in procs.items():
                 out = pr.communicate()[0]
                 if pr.returncode == 1:
@@ -66,11 +70,9 @@ def run(ids):
             res[bid] = hits
             print(bid, hits if hits else "silent")
         finally:
-            sh("git -C /repo checkout -- .")
+            sh(f"git -C {WT} checkout -- .")
     json.dump(res, open(lr, "w"), indent=1, sort_keys=True)
-    st = sh("git -C /repo status --short")[1].strip()
-    if st:
-        print("WARNING /repo not clean:", st)
+    sh(f"git -C /repo worktree remove --force {WT}")
 
 
 if __name__ == "__main__":
